@@ -391,6 +391,14 @@ impl<'a, K: PartialOrd, V, const S: bool> IntoIterator for &'a Map<K, V, S> {
     }
 }
 
+impl<'a, K: PartialOrd, V, const S: bool> IntoIterator for &'a mut Map<K, V, S> {
+    type Item = (&'a K, &'a mut V);
+    type IntoIter = IterMut<'a, K, V, S>;
+    fn into_iter(self) -> IterMut<'a, K, V, S> {
+        self.iter_mut()
+    }
+}
+
 impl<K, V, const S: bool> Map<K, V, S> {
     fn no_havoc(&self) {
         assert!(!self.i().havoc, "vcoll: iteration over an unbounded symbolic map is not modelled");
